@@ -11,10 +11,10 @@ MANIFEST = {
     "note": "trusted: Lean kernel; hand-written model tied by a differential run of the real format.Source (before/after views through the real parser); sort.Slice is "
             "modelled as a stable sort (exact up to 12 specs per run, beyond that only for specs that differ in the observed (name, path)); comment re-attachment and "
             "MergeLine are not modelled.",
-    "technique": "Lean 4 proof (insertion sort over a lexicographic strict total order, permutation/sublist reasoning) + differential correspondence via real format.Source",
+    "technique": "Lean 4 proof (insertion sort over a lexicographic strict total order, permutation/sublist reasoning) + differential correspondence via real format.Source and format.Node",
 }
 
-RULE = ("generated complete files: optional package clause, 1-3 import declarations (ungrouped, parenthesised, empty), 0-21 specs per block drawn from a small path pool "
+RULE = ("every file is formatted through BOTH format.Source and parser.ParseFile+format.Node; generated complete files (with //line and /*line*/ directives before/inside/after import blocks): optional package clause, 1-3 import declarations (ungrouped, parenthesised, empty), 0-21 specs per block drawn from a small path pool "
         "(so duplicates are frequent), names (alias . _), quoted/raw/escaped literals, trailing line and block comments (never with empty text, DESIGN 2.6), doc-comment "
         "and block-comment lines, blank lines (run boundaries), two specs on one line, file ending right after the last spec, a following func/var/statement; "
         "non-trivial = distinct file with a parenthesised import declaration and >= 2 specs")
